@@ -80,6 +80,8 @@ func solveScript(file string, secs int, order []int, crossCheck bool) solveOut {
 	return last
 }
 
+var buildMu sync.Mutex
+
 type solveJob struct {
 	o      *Obligation
 	body   string
@@ -90,7 +92,7 @@ type solveJob struct {
 func solveAll(w *World, obls []*Obligation, secs int, depth int, seed int, workDir string, thorough bool) {
 	prelude := ""
 	bodies := make([]string, len(obls))
-	fulls := make([]string, len(obls))
+	fulls := make([][]string, len(obls))
 	for i, o := range obls {
 		func() {
 			defer func() {
@@ -103,9 +105,9 @@ func solveAll(w *World, obls []*Obligation, secs int, depth int, seed int, workD
 					panic(r)
 				}
 			}()
-			bodies[i] = o.buildBody(w, depth, true)
-			if len(o.Hyps) > 0 {
-				fulls[i] = o.buildBody(w, depth, false)
+			bodies[i] = o.buildBody(w, depth, -1)
+			for j := range o.Hyps {
+				fulls[i] = append(fulls[i], o.buildBody(w, depth, j))
 			}
 		}()
 	}
@@ -134,8 +136,15 @@ func solveAll(w *World, obls []*Obligation, secs int, depth int, seed int, workD
 			}
 			_ = os.WriteFile(file, []byte(text), 0644)
 			o.Script = file
-			r := solveScript(file, secs, order, false)
+			first := secs
+			if len(o.Splits) > 0 && first > 3 {
+				first = 3
+			}
+			r := solveScript(file, first, order, false)
 			o.Result, o.Solver, o.Ms, o.Model = r.result, r.solver, r.ms, r.output
+			if r.result != "unsat" && r.result != "sat" && len(o.Splits) > 0 {
+				solveSplit(w, o, prelude, depth, secs, order, workDir, i)
+			}
 			if thorough && r.result == "unsat" && !o.MustFail {
 				// cross-check with a second solver
 				for _, j := range order {
@@ -154,14 +163,77 @@ func solveAll(w *World, obls []*Obligation, secs int, depth int, seed int, workD
 					break
 				}
 			}
-			if fulls[i] != "" {
-				f2 := filepath.Join(workDir, fmt.Sprintf("o%04d_full.smt2", i))
-				_ = os.WriteFile(f2, []byte(prelude+fulls[i]), 0644)
-				r2 := solveScript(f2, secs, order, false)
-				o.FullResult = r2.result
+			o.DropRes = make([]string, len(fulls[i]))
+			for j, fb := range fulls[i] {
+				f2 := filepath.Join(workDir, fmt.Sprintf("o%04d_drop%d.smt2", i, j))
+				_ = os.WriteFile(f2, []byte(prelude+fb), 0644)
+				dsecs := secs
+				if dsecs > 10 {
+					dsecs = 10
+				}
+				r2 := solveScript(f2, dsecs, order[:1], false)
+				o.DropRes[j] = r2.result
 				o.Ms += r2.ms
 			}
 		}(i, o)
 	}
 	wg.Wait()
+}
+
+// solveSplit decides an obligation by an exhaustive case split over boolean conditions of the
+// function's inputs: every case must be unsat.
+func solveSplit(w *World, o *Obligation, prelude string, depth, secs int, order []int, workDir string, idx int) {
+	n := len(o.Splits)
+	if n > 10 {
+		n = 10
+	}
+	total := 1 << n
+	results := make([]solveOut, total)
+	var wg sync.WaitGroup
+	sem := make(chan struct{}, 8)
+	for c := 0; c < total; c++ {
+		wg.Add(1)
+		go func(c int) {
+			defer wg.Done()
+			sem <- struct{}{}
+			defer func() { <-sem }()
+			var hyps []*Term
+			for j := 0; j < n; j++ {
+				if c&(1<<j) != 0 {
+					hyps = append(hyps, o.Splits[j])
+				} else {
+					hyps = append(hyps, Not(o.Splits[j]))
+				}
+			}
+			buildMu.Lock()
+			body := o.buildBody(w, depth, -1, hyps...)
+			pre := scriptHeader + w.prelude()
+			buildMu.Unlock()
+			file := filepath.Join(workDir, fmt.Sprintf("o%04d_case%d.smt2", idx, c))
+			_ = os.WriteFile(file, []byte(pre+body), 0644)
+			results[c] = solveScript(file, secs, order, false)
+		}(c)
+	}
+	wg.Wait()
+	o.NSplit = total
+	allUnsat := true
+	var ms int64
+	for c, r := range results {
+		ms += r.ms
+		if r.result == "sat" {
+			o.Result, o.Solver, o.Model = "sat", r.solver, fmt.Sprintf("case %d of %d\n%s", c, total, r.output)
+			o.Script = filepath.Join(workDir, fmt.Sprintf("o%04d_case%d.smt2", idx, c))
+			allUnsat = false
+			break
+		}
+		if r.result != "unsat" {
+			allUnsat = false
+			o.Result, o.Solver, o.Model = r.result, r.solver, fmt.Sprintf("case %d of %d undecided\n%s", c, total, r.output)
+			o.Script = filepath.Join(workDir, fmt.Sprintf("o%04d_case%d.smt2", idx, c))
+		}
+	}
+	o.Ms += ms
+	if allUnsat {
+		o.Result, o.Solver = "unsat", fmt.Sprintf("case-split(%d) %s", total, results[0].solver)
+	}
 }
